@@ -536,7 +536,10 @@ func (z *BigInt) Div(x, y *BigInt) *BigInt {
 func (z *BigInt) DivMod(x, y, m *BigInt) (*BigInt, *BigInt) {
 	var tmp1, tmp2, tmp3, tmp4 big.Int //gcassert:noescape
 	zi := z.inner(&tmp1)
-	mi := m.inner(&tmp2)
+	// NOTE: innerOrAlias for the m param: when m is the receiver itself both
+	// results go into one big.Int, as in math/big; two views of the same
+	// inline array would corrupt each other.
+	mi := m.innerOrAlias(&tmp2, z, zi)
 	// NOTE: innerOrAlias for the y param because (big.Int).DivMod needs to
 	// detect when y is aliased to the receiver.
 	zi.DivMod(x.inner(&tmp3), y.innerOrAlias(&tmp4, z, zi), mi)
@@ -568,10 +571,16 @@ func (z *BigInt) GCD(x, y, a, b *BigInt) *BigInt {
 	zi := z.inner(&tmp1)
 	ai := a.inner(&tmp2)
 	bi := b.inner(&tmp3)
-	xi := x.innerOrNil(&tmp4)
+	// NOTE: a cofactor that is the receiver itself shares the receiver's
+	// big.Int, as in math/big; two views of the same inline array would
+	// corrupt each other.
+	xi := x.innerOrNilOrAlias(&tmp4, z, zi)
 	// NOTE: innerOrNilOrAlias for the y param because (big.Int).GCD needs to
 	// detect when y is aliased to b. See "avoid aliasing b" in lehmerGCD.
 	yi := y.innerOrNilOrAlias(&tmp5, b, bi)
+	if y != nil && y == z {
+		yi = zi
+	}
 	zi.GCD(xi, yi, ai, bi)
 	// math/big can leave the sign set on a cofactor that is zero (x for
 	// GCD(-6, 3)); a zero BigInt is never negative.
